@@ -863,10 +863,10 @@ def evaluate__replace(self: XPathFunction, context: ta.ContextType = None) -> st
     try:
         python_pattern = translate_pattern(pattern, flags, self.parser.xsd_version)
         re_pattern = re.compile(python_pattern, flags=flags)
-    except (re.error, RegexError):
+    except (re.error, RegexError, OverflowError):
         if isinstance(context, XPathSchemaContext):
             return input_string
-        raise self.error('FORX0002', f"Invalid regular expression {pattern!r}")
+        raise self.error('FORX0002', f"Invalid regular expression {pattern!r}") from None
     else:
         if re_pattern.search(''):
             msg = f"Regular expression {pattern!r} matches zero-length string"
@@ -934,7 +934,7 @@ def evaluate__tokenize(self: XPathFunction, context: ta.ContextType = None) -> t
     try:
         python_pattern = translate_pattern(pattern, flags, self.parser.xsd_version)
         re_pattern = re.compile(python_pattern, flags=flags)
-    except (re.error, RegexError):
+    except (re.error, RegexError, OverflowError):
         if isinstance(context, XPathSchemaContext):
             return xlist([input_string])
         raise self.error('FORX0002', f"Invalid regular expression {pattern!r}") from None
